@@ -460,6 +460,7 @@ def run(P, chk, tier):
     output_rule(P, chk)
     chk.rule(importers.R_ROWS, "each importer turns every statement record into exactly one transaction; reader options cannot drop records")
     importers.csv_reader(P, chk)
+    importers.csv_number_sign(P, chk, R_SCALE)
     importers.record_loop(P, chk, importers.CSV_IMPORT, "CSV record", skip_guards=(("is_empty", True),))
     importers.record_loop(P, chk, "okane::import::iso_camt053::import", "entry / detail", only_if=(("is_empty", True),),
                           not_record_loops=("statements",))
